@@ -38,8 +38,10 @@ struct Hist {
     std::vector<std::string> states;
     Fingerprint fp;
     bool setup_failed = false; std::string setup_detail;
+    std::vector<sslSessionId_t *> held_tmp_sids;         // session id objects owned by half-open connections (freed at teardown)
     std::vector<std::unique_ptr<TlsWorld> > held;        // connections kept open across later operations ("hold" ... "release")
     void release(size_t i);
+    void forge_halfopen(int c, const Op &op);
     int64_t now_s() { return vsim_mono_ms() / 1000; }
     explicit Hist(const Plan &p) : plan(p) {}
     void fail(const std::string &c, const std::string &x, const std::string &d) { if (viol_cls.empty()) { viol_cls = c; viol_ctx = x; viol_detail = d; } }
@@ -77,7 +79,7 @@ static Plan c14_gen(uint64_t seed, int tier, uint64_t index) {
         case 9: p.ops.push_back(Op("fill", (int64_t) (5 + r.below(40)))); break;
         case 10: p.ops.push_back(Op("addkey", (int64_t) (2 + r.below(3)))); break;
         case 11: p.ops.push_back(Op("rmkey", (int64_t) (1 + r.below(4)))); break;
-        case 12: p.ops.push_back(Op("foreign", c)); break;                                                                                          // full handshake with the foreign server: the sid now holds its ticket/psk
+        case 12: if (r.chance(1, 2)) { p.ops.push_back(Op("foreign", c)); } else { p.ops.push_back(Op("halfopen", c, (int64_t) r.below(2), (int64_t) r.next() % 100000, (int64_t) r.below(8))); p.ops.push_back(Op("resume", c, 0)); } break;                                                                                          // full handshake with the foreign server: the sid now holds its ticket/psk
         case 13: case 14: p.ops.push_back(Op("edit", c, (int64_t) r.below(9), (int64_t) r.below(4096), (int64_t) r.below(256))); break;
         case 15: if (r.chance(1, 2)) { p.ops.push_back(Op("dirty", c)); } else if (r.chance(2, 3)) { p.ops.push_back(Op("hold", c, 0)); } else { p.ops.push_back(Op("release", (int64_t) r.below(4))); } break;                                                                                            // resume and delete both sessions without closure
         }
@@ -140,6 +142,14 @@ static std::vector<Plan> c14_fixed(int tier) {
                         p.ops.push_back(Op("fatal", 0, 1)); p.ops.push_back(Op("resume", 0, 0)); p.ops.push_back(Op("release", 0)); p.ops.push_back(Op("resume", 0, 0));
                         v.push_back(p);
                     }
+                }
+                if (ver < 2 && !tk) {   // session id of a handshake the server has only half done, presented with a guessed (empty) master secret
+                    for (int guess = 0; guess < 3; guess++) { for (int ems = 0; ems < 2; ems++) {
+                        Plan p; p.seed = 159000 + (uint64_t) (((kind * 3 + ver) * 3 + guess) * 2 + ems);
+                        p.cfg["kind"] = kind ? KK_EC256 : KK_RSA2048;
+                        p.ops.push_back(Op("halfopen", 0, ver, 7, (guess == 2 ? 4 : guess) | (ems << 1))); p.ops.push_back(Op("resume", 0, 0));
+                        v.push_back(p);
+                    } }
                 }
                 {   // ticket key removed, then resume
                     Plan p; p.seed = 156000 + (uint64_t) ((kind * 3 + ver) * 2 + tk);
@@ -313,6 +323,60 @@ void Hist::release(size_t i) {
     counters["conn.released"]++;
 }
 
+// An attacker's view of a handshake the server has only half done: connection A sends a ClientHello and reads the ServerHello (with the
+// session id the server has just allocated, in plaintext) but never continues.  The attacker then forges client state for that id - the only
+// secret it can guess is "no master secret yet" (all zero) - into client c's session id object; a later "resume" presents it.
+void Hist::forge_halfopen(int c, const Op &op) {
+    Client &C = cl[c];
+    C.ver = (int) ((uint64_t) op.b % 2);      // TLS 1.1 / 1.2: the session cache is not used by TLS 1.3
+    Rng r((uint64_t) op.c + 99); C.suite = pick_suite(r, C.ver, server_kind); C.tickets = false; C.ems = (op.d & 2) ? -1 : 0; C.multi = false;
+    static const uint32_t V[] = { v_tls_1_1, v_tls_1_2, v_tls_1_3 };
+    PairCfg pc; pc.versions_c = { V[C.ver] }; pc.versions_s = { v_tls_1_3, v_tls_1_2, v_tls_1_1 }; pc.suites = { C.suite }; pc.server_identity = server_kind; pc.ems_c = C.ems;
+    vsim_set_node(NODE_HARNESS);
+    sslSessionId_t *tmp = nullptr; if (matrixSslNewSessionId(&tmp, nullptr) < 0) { return; }
+    std::unique_ptr<TlsWorld> wp(new TlsWorld()); TlsWorld &w = *wp;
+    w.adopt(skeys[0], C.keys, tmp, pc);
+    w.record_granular = true;                 // one record per delivery: the attacker stops in front of ChangeCipherSpec
+    bool got = false;
+    if (w.connect()) {
+        w.collect(DIR_C2S); while (w.deliver(DIR_C2S)) { } w.collect(DIR_S2C);      // ClientHello in, server flight out
+        bool after_cke = (op.d & 4) != 0;
+        unsigned char real_ms[48]; bool have_ms = false;
+        if (after_cke) {
+            // the attacker goes one step further: it answers with a ClientKeyExchange (so the server derives the master secret, which the
+            // attacker, having chosen the premaster, knows too) but never sends ChangeCipherSpec / Finished
+            while (w.deliver(DIR_S2C)) { }
+            w.collect(DIR_C2S);
+            size_t n = w.wire[DIR_C2S].size();
+            for (size_t i = 0; i < n && !w.wire[DIR_C2S].empty(); i++) {
+                const Bytes &u = w.wire[DIR_C2S].front();
+                if (!u.empty() && u[0] == 20) { break; }                          // stop at ChangeCipherSpec
+                if (!w.deliver(DIR_C2S)) { break; }
+            }
+            w.wire[DIR_C2S].clear();
+            have_ms = w.cli && w.cli->alive() && vsim_peek_master_secret((const struct ssl *) w.cli->ssl, real_ms) == 0;
+        }
+        for (auto &rec : w.captured[DIR_S2C]) {
+            if (rec.type != 22 || rec.body_len() < 4 + 2 + 32 + 1 || rec.raw[rec.hdr] != 2) { continue; }
+            const unsigned char *b = rec.raw.data() + rec.hdr + 4 + 2 + 32; size_t n = *b;
+            if (n == 32 && rec.body_len() >= 4 + 2 + 32 + 1 + n) {
+                struct sslSessionId *sid = (struct sslSessionId *) C.sid;
+                vsim_set_node(NODE_HARNESS); matrixSslClearSessionId(C.sid);
+                memcpy(vsim_sid_id_bytes(sid), b + 1, 32); vsim_sid_set_idlen(sid, 32);
+                memset(vsim_sid_master(sid), (op.d & 1) ? 0xA5 : 0, 48);              // the guess: nothing there yet (or allocator poison)
+                if (have_ms) { memcpy(vsim_sid_master(sid), real_ms, 48); }            // ... or the real one of the unfinished handshake
+                vsim_sid_set_cipher(sid, C.suite);
+                got = true;
+            }
+            break;
+        }
+    }
+    counters[got ? ((op.d & 4) ? "fault.forged_session_of_unfinished_handshake" : "fault.forged_halfopen_session") : "fault_not_fired"]++;
+    last_edit = "forged_halfopen";
+    w.filter = nullptr;
+    held.push_back(std::move(wp)); held_tmp_sids.push_back(tmp);
+}
+
 void Hist::edit(int c, const Op &op) {
     Client &C = cl[c];
     struct sslSessionId *sid = (struct sslSessionId *) C.sid;
@@ -338,7 +402,8 @@ void Hist::edit(int c, const Op &op) {
 void Hist::run() {
     for (auto &op : plan.ops) {
         if (!viol_cls.empty()) { break; }
-        if (op.k == "release") { if (!held.empty()) { release((size_t) ((uint64_t) op.a % held.size())); } }
+        if (op.k == "halfopen") { forge_halfopen((int) ((uint64_t) op.a % NCLIENTS), op); }
+        else if (op.k == "release") { if (!held.empty()) { release((size_t) ((uint64_t) op.a % held.size())); } }
         else if (op.k == "full" || op.k == "resume" || op.k == "fatal" || op.k == "dirty" || op.k == "hold") { connect((int) ((uint64_t) op.a % NCLIENTS), 0, op); }
         else if (op.k == "foreign") { connect((int) ((uint64_t) op.a % NCLIENTS), 1, op); }
         else if (op.k == "advance") { vsim_clock_advance_ms(op.a); counters["clock_advanced"]++; }
@@ -374,6 +439,9 @@ void Hist::run() {
         } else if (op.k == "edit") { edit((int) ((uint64_t) op.a % NCLIENTS), op); }
     }
     while (!held.empty()) { release(0); }
+    vsim_set_node(NODE_HARNESS);
+    for (auto *t : held_tmp_sids) { matrixSslDeleteSessionId(t); }
+    held_tmp_sids.clear();
 }
 
 static RunResult c14_exec(const Plan &p) {
